@@ -24,6 +24,15 @@ func init() {
 
 var c10Progs = []string{
 	`a*2+b`,
+	// slices of constant lists extended per evaluation; constant lazy stage lists iterated by every evaluation
+	`let c=[1,2,3,4]; [c.top(2).append(a), c, c.top(2).append(b), c.skip(2).append(a)]`,
+	`let c=[1,2,3].map(x->x).eval(); [c.top(1).append(a).sum(), c.sum(), c.top(3).append(b)]`,
+	`let l=[5,6,7].number((i,x)->x*10+i); [l.sum()+a, l[b%3], l.first()]`,
+	`let l=[5,6,7,8].combine((p,q)->p-q); [l.sum(), l.first()+a, l.size(), l[b%3]]`,
+	`let l=[1,2,3].iir(x->x,(x,o)->o+x); [l.last()+a, l.first(), l.sum()+b]`,
+	`let l=[1,2,3,4].combineN(2,w->w[0]*w[1]); [l.sum()+a, l.first()+b, l.size()]`,
+	`let l=numbers(4).fsm((s,x)->goto((s.state+x)%3)).map(s->s.state); [l.sum()+a, l.first()+b]`,
+	`let l=[3,1,2].compact((p,q)->p=q).number((i,x)->i); [l.sum()+a, l.last()+b, l.sum()]`,
 	// constant lazy lists whose producer fails for one element: the failure is the outcome every time
 	`let l=[3,2,0,4].map(x->12%x); try l[a%4] catch b`,
 	`let l=[3,2,0,4].map(x->12%x); [try l.size()+a catch b, try l[0] catch b, try l.first() catch a]`,
